@@ -392,21 +392,39 @@ fn main() {
                 _ => None,
             }).collect();
             let n_adds = hops.iter().filter(|h| h.starts_with("HAdd")).count();
-            if n_adds <= 18 {
+            let optimized = ops.iter().any(|o| matches!(o, Op::Optimize));
+            if n_adds <= 18 && !optimized {
                 let mut l = Live { b: Blocker::new(vec![], &BlockerOptions { enable_optimizations: false }), accepted: vec![], tags: BTreeSet::new(), wrongly_rejected: None };
                 for o in ops.iter() {
                     apply(&mut l, o);
                 }
                 let d = dump_blocker(&l.b);
-                let view = |f: &FilterDump| format!("({}, {}, {})", cn(f.id), cn(f.mask), cstrs(&f.filter));
-                let v_coq = clist(&d.lists, |(_, lst)| clist(lst, |(k, b)| format!("({}, {})", cn(*k), clist(b, view))));
+                // the INVARIANT of the model (every loaded rule of a list sits under one of its own
+                // tokens per token group, nothing else is stored, buckets sorted by id), evaluated on the
+                // dumped implementation state against the abstract state of the history (loaded rules,
+                // set-algebra tags) -- not the exact layout, which depends on harmless tie-breaks of the
+                // best-token choice
+                let model_lists = [
+                    ("csp", "of_cat CCsp L"), ("exceptions", "of_cat CException L"), ("importants", "of_cat CImportant L"),
+                    ("redirects", "filter is_redirect (live L)"), ("removeparam", "of_cat CRemoveparam L"),
+                    ("filters_tagged", "tagged_active T (of_cat CTagged L)"), ("filters", "of_cat CNormal L"), ("generic_hide", "of_cat CGenericHide L"),
+                ];
+                let mut conj = vec![];
+                for (name, sel) in model_lists.iter() {
+                    let lst = &d.lists.iter().find(|(n, _)| n == name).unwrap().1;
+                    conj.push(format!("well_indexed_b seahash ({}) {}", sel, coq_dump(lst)));
+                }
+                let mut tags_impl = l.b.tags_enabled();
+                tags_impl.sort();
                 cs.stat("history_state");
-                if ops.iter().any(|o| matches!(o, Op::Optimize)) { cs.stat("history_state_with_optimize"); }
                 cs.case(
-                    format!("blocker_views_eqb (hrun seahash [{}]) {}", hops.join("; "), v_coq),
-                    json!({"fn": "state after the history vs hrun", "ops": opsj}),
+                    format!("let ops := [{}] in let L := loaded ops in let T := tagset ops in {} && (let I := {} in forallb (fun t => mem_str t T) I && forallb (fun t => mem_str t I) T)",
+                        hops.join("; "), conj.join(" && "), cstrs(&tags_impl)),
+                    json!({"fn": "invariant of the state after the history (WellIndexed per list, tag set)", "ops": opsj}),
                     n_adds >= 3,
                 );
+            } else if optimized {
+                cs.stat("history_with_optimize_state_not_compared");
             }
         }
         engine_level(&mut r, &mut sm);
